@@ -460,7 +460,7 @@ def gen_mounts_case(rng):
         elif style < 0.08:
             e["comment"] = True
         elif style < 0.11:
-            e["long"] = rng.choice([3000, 4090, 4096, 5000, 70000])
+            e["long"] = rng.choice([900, 1020, 1100, 2000, 3000, 3800, 4090, 4096, 5000, 70000])
         entries.append(e)
     fs = ["ext4", "vfat", "xfs", "btrfs", "fuse.sshfs", "nfs4"]
     rng.shuffle(fs)
@@ -487,10 +487,10 @@ def expected_mounts(case):
     for e in case["entries"]:
         if e["comment"]:
             continue
-        if e["long"] or len(render_mounts(dict(entries=[e]))) > 4000:
-            uncertain = True
+        if len(render_mounts(dict(entries=[e]))) > 4000:
+            uncertain = True        # beyond getmntent(3)'s own line buffer
             continue
-        f = [_b(e["dev"]), _b(e["dir"]), _b(e["type"]), _b(e["opts"])][:e["nfields"]]
+        f = [_b(e["dev"]), _b(e["dir"]) + (b"/" + b"L" * e["long"] if e["long"] else b""), _b(e["type"]), _b(e["opts"])][:e["nfields"]]
         f += [b""] * (4 - len(f))
         out.append(tuple(f))
     return out, uncertain
